@@ -27,11 +27,15 @@ RULE = ("inputs: IEEE special values (NaN, +-inf, +-0.0, subnormals, neighbours 
         "set/up/down/read/device-report over the real facade+RaopAudio and facade+MrpAudio (specials included), with RAOP "
         "stream starts (real RaopStream.stream_file + real StreamClient.send_audio; receiver advertising any / no initialVolume, "
         "accepting or rejecting SET_PARAMETER volume before RECORD; level never known / user-set / reported; every fixed level incl. "
-        "0.0 and 100.0 set-then-stream-then-read) and MRP volume updates for other output-device UIDs interleaved, plus a "
+        "0.0 and 100.0 set-then-stream-then-read), operations issued while another one is suspended (at connect / info / "
+        "open-source of stream_file; during the SET_PARAMETER round trip of a set_volume that is then refused or accepted), "
+        "two device objects alive in one process with interleaved operations, "
+        "and MRP volume updates for other output-device UIDs interleaved, plus a "
         "BFS over every state reachable by volume_up/volume_down; non-trivial = input at or outside a boundary, a "
         "special value, or a history containing a rejected set, a clamped step or an out-of-range report; distinct = "
         "(kind, exact input)")
 ASSUMPTIONS = [
+    "an operation issued while another one is suspended in an await is run inline at that await by the harness (one deterministic interleaving per suspension point; the event loop is run before the suspended operation continues)",
     "IEEE-754 binary64 round-to-nearest-even is monotone (the Lean theorems need a monotone rounding that is exact on 0,1,30,100,3000,-30; exactness on these is proved for the driver's rne)",
     "float read-back is compared within a tolerance (4 ulp at 100 for one conversion, 8 ulp for set-then-read); exact equality is proved in exact arithmetic only",
     "no operation of the volume path overflows binary64 (every operand has passed a range guard)",
